@@ -54,6 +54,7 @@ fn main() {
         "dh-local" => disthdr::run_local(rest),
         "dh-edges" => disthdr::run_edges(rest),
         "framing-run" => framing::run(rest),
+        "transport-run" => framing::run_transport(rest),
         "md5" => md5::run_selftest(rest),
         "hs-edges" => handshake::run_edges(rest),
         "hs-wire" => handshake::run_wire(rest),
